@@ -9,4 +9,5 @@ TARGETS = {
     "c18_book": dict(flavours=["seq"], src=["harness/c18_book.cpp"], net="stub", ldflags="-Wl,--wrap=_ZN6Random7nextIntEi"),
     "c19_bookbuild": dict(flavours=["seq", "fast"], src=["harness/c19_bookbuild.cpp"], net="stub"),
     "c12_tbgen": dict(flavours=["seq", "fast"], src=["harness/c12_tbgen.cpp"], net="stub"),
+    "c13_tbsearch": dict(flavours=["seq", "fast"], src=["harness/c13_tbsearch.cpp"], net=1),
 }
